@@ -22,6 +22,7 @@ EXPLANATION = (
     'sequence / priority order as properties of histories and the item-buffer ring arithmetic are NOT decided.')
 EXPLANATION += ' Added after the seeded-change rounds: ' + 'D1 also: decrement_counter reads my_count only before it writes it; whenever my_count can go down the admission condition is evaluated again on every path; D2 also: hash_buffer::insert_with_key leaves the buffer untouched on the paths that return false, and the status of a key-matching put is derived from the insertion result.'
 EXPLANATION += ' Added in the third session (round-3 seeds and the findings they led to): ' + 'D3 also: priority_queue_node::reheap looks at children below mark only (rule shared with C13) and every copy constructor takes user-supplied state (functors, parameters) from its source.'
+EXPLANATION += ' Added in the fifth seeding round: ' + 'D3 also: in sequencer_node::internal_push every tag + 1 (other than the wrap test itself) is dominated by an edge on which the sequence number is known to have a successor.'
 ASSUMPTIONS = ['node kinds instantiated in drivers/flow.cpp', 'aggregator serialises buffer handlers (C13-D1, C14-D1/D2)']
 ND = ['FIFO / sequence / priority order as history properties', 'item-buffer ring arithmetic', 'key-matching counting']
 LOCKCLS = lambda c: c.endswith('scoped_lock')   # noqa: E731
@@ -305,6 +306,53 @@ def d3_buffers(facts, rep):
         ok2 = bool(gr) and bool(te) and all(every_path_passes(fn, (fn.blocks[b]['succ'][si], -1), lambda p, e: p in set(c[0] for c in gr))[0] for b, si in te) and \
             all(not fn.can_reach(p[0], g[0]) for p in pl for g in gr)
         rep.ob('D3', 'K4', fn, 'the buffer is grown before an out-of-range item is placed', ok2, 'place_item beyond the capacity')
+        # the successor of the user's sequence number: tag + 1 wraps for the largest value, the tail then does not cover the item
+        # and place_item writes it over a buffered one ("exactly the items numbered 0,1,2,... with no gap")
+        tagvars = set()
+        for pos, s_, nd in fn.stmt_elems(('decl',)):
+            for v in nd.get('vars', []):
+                if v.get('init', -1) >= 0 and any(fn.nodes[x].get('k') == 'member' and fn.nodes[x].get('n') == 'my_sequencer' for x in fn.subtree(v['init'])):
+                    tagvars.add(v['v'])
+        if not tagvars:
+            raise AnalysisBroken('sequencer_node::internal_push: the variable holding the sequence number was not found')
+
+        def is_tag(x):
+            nd = fn.n(fn.strip(x))
+            return nd.get('k') == 'var' and nd.get('v') in tagvars
+
+        def is_succ(x):
+            nd = fn.n(fn.strip(x))
+            return nd.get('k') == 'binop' and nd['op'] == '+' and ((is_tag(nd['l']) and fn.cv(nd['r']) == 1) or (is_tag(nd['r']) and fn.cv(nd['l']) == 1))
+
+        def no_wrap(a, truth):
+            nd = fn.n(fn.strip(a))
+            if nd.get('k') != 'binop' or nd['op'] not in ('==', '!='):
+                return False
+            for x, y in ((nd['l'], nd['r']), (nd['r'], nd['l'])):
+                cy = fn.cv(y)
+                if (is_succ(x) and cy == 0) or (is_tag(x) and cy is not None and (cy == -1 or cy == (1 << 64) - 1 or cy == (1 << 32) - 1)):
+                    return (nd['op'] == '!=') == truth
+            return False
+        we = edges_where(fn, no_wrap)
+        pm = fn.parent_map()
+        sums = []
+        for pos, s_, nd in fn.stmt_elems(('binop',)):
+            if is_succ(s_):
+                par = pm.get(s_)
+                for _ in range(4):
+                    if par is not None and fn.nodes[par].get('k') in ('rd', 'cast', 'paren'):
+                        par = pm.get(par)
+                pn = fn.nodes[par] if par is not None else {}
+                if pn.get('k') == 'binop' and pn['op'] in ('==', '!=') and (fn.cv(pn['l']) == 0 or fn.cv(pn['r']) == 0):
+                    continue          # the wrap test itself
+                sums.append((pos, nd))
+        if not sums:
+            raise AnalysisBroken('sequencer_node::internal_push: no use of tag + 1 found')
+        ok3 = bool(we) and all(dominated_by_edges(fn, p, we)[0] for p, _ in sums)
+        rep.ob('D3', 'K14', fn, 'the successor of the sequence number is computed only for numbers that have one (tag + 1 does not wrap)', ok3,
+               'tag + 1 at line(s) %s is computed for any value the user functor returns: for size_t(-1) it wraps to 0, the tail is not moved, and '
+               'place_item writes the message over a buffered one - a numbered item is lost and a foreign one is forwarded in its place'
+               % sorted(set(nd.get('ln') for _, nd in sums)), key_extra='seq-wrap')
     P = D2 + 'priority_queue_node::'
     for fn in facts.get(P + 'internal_reserve'):
         st = [(p, s) for p, s, l, r in assignments(fn) if last_member(fn, l) == 'my_reserved' and fn.cv(r) == 1]
